@@ -334,7 +334,9 @@ class Report(object):
             'discharged': self.discharged,
             'checker_cmd': 'cd lean && lake build Props.%s && lake env lean .lake/audit/Props_%s.lean  (#print axioms per theorem)' % (self.prop, self.prop),
             'trusted_base': ['Lean 4.33.0 kernel', 'axioms: ' + ', '.join(sorted({a for v in self.axioms.values() for a in v}) or ['none']),
-                             'gen/extract.py (translator)', 'harness correspondence (model = code on the cases run)',
+                             'gen/extract.py (translator: tables, flags, call-site audit)',
+                             'gen/py2lean.py + lean/Asn1/PyLite.lean (translator of the octet kernels and its run-time library; compared with the code and with CPython by harness/kernels.py)',
+                             'harness correspondence (model = code on the cases run)',
                              'lean compiler for the driver'],
             'theorems': self.theorems,
             'evaluations': max(self.evaluations, 1),
